@@ -23,7 +23,7 @@ package main
 //@   ensures [zero-keeps-unit] v != "infinity" && err == nil && f.Rate.Freq == 0 ==> f.Rate.Per == old(f.Rate.Per)
 
 //@ func (headers).Set
-//@   property C19 C16
+//@   property C19 C16 C06 C14
 //@   returns (err)
 //@   requires [map-allocated] h.Header != nil
 //@   modifies h.Header[*], h.Header[trim(splitn_i(value, ":", 2, 0))][cap]
@@ -214,7 +214,7 @@ package main
 // processAttack: every result received from the attack is observed (if metrics are on) and written
 // exactly once, in the order received, until the channel is closed, a write fails or a second signal.
 //@ func processAttack
-//@   property C02 C20
+//@   property C02 C20 C09
 //@   pragma frame off
 //@   pragma concurrent yes
 //@   shared done, closed
